@@ -48,7 +48,7 @@ func init() {
 		return &fw.Prop{
 			ID:    "C17",
 			Level: "exploration",
-			Rule:  "cases = (accepted instance, Goldilocks-typed leaf position of Proof found by reflection, offset k*p with k in {1, 2, 2^64, largest k with value < r}, face, hint policy) executed through VerifierCircuit.Define; the verdict must be REJECT/REFUSE under the honest-with-total-fallback hint policy and under every adversarial limb candidate for the non-canonical value ((x>>32, x&mask), (hi-1, lo+2^32), (0,x), limbs of x mod p). Non-trivial = the leaf value really became non-canonical; distinct by (instance, leaf path, k, face).",
+			Rule:  "cases = (accepted instance, Goldilocks-typed leaf position of Proof found by reflection, offset k*p with k in {1, 2, 2^64, largest k with value < r}, face, hint policy) executed through VerifierCircuit.Define; the verdict must be REJECT/REFUSE under the honest-with-total-fallback hint policy and under every adversarial limb candidate for the non-canonical value ((x>>32, x&mask), (hi-1, lo+2^32), (0,x), limbs of x mod p). Non-trivial = the leaf value really became non-canonical; distinct by (instance, leaf path, k, face). Also: the first position of every kind under the commitment-based mechanism with every forged limb pair, and both wrappers.",
 			Assumptions: []string{
 				"public inputs are excluded: the property lists proof elements only and the circuit deliberately reduces public inputs",
 				"under the Commit face the checks are deferred to the end of the circuit, so that face is sampled; Native and Plain stop inside the canonicity sweep",
@@ -223,7 +223,7 @@ func init() {
 		return &fw.Prop{
 			ID:    "C20",
 			Level: "exploration",
-			Rule:  "cases = (accepted instance, list position of the proof structure found by reflection, mutation in {drop first, drop last, duplicate last, append zero element, empty}) and (instance, configuration edit of query rounds / cap height / rate bits / pow bits / degree bits / arity bits / counts, applied to config.fri_config, fri_params.config, or both) against the unchanged proof; executed through VerifierCircuit.Define; verdict must never be ACCEPT. The consistent k-round prefix restriction (truncate the round list AND both round counts) is C02's family and is not generated. Non-trivial = the shape or configuration really changed; distinct by (instance, list path, mutation).",
+			Rule:  "cases = (accepted instance, list position of the proof structure found by reflection, mutation in {drop first, drop last, duplicate last, append zero element, empty}) and (instance, configuration edit of query rounds / cap height / rate bits / pow bits / degree bits / arity bits / counts, applied to config.fri_config, fri_params.config, or both) against the unchanged proof; executed through VerifierCircuit.Define; verdict must never be ACCEPT. The consistent k-round prefix restriction (truncate the round list AND both round counts) is C02's family and is not generated. Non-trivial = the shape or configuration really changed; distinct by (instance, list path, mutation). Also: the same list kinds in the LAST query round, the verifier data's cap list, coordinated degree_bits / rate_bits edits, a cooperating longer Merkle path (two cap entries replaced by their parent), and 'frilevel': VerifyFriProof driven with the unaltered proof's challenges on alterations of the round lists (first / last / every round), alone and together with a surplus commit-phase cap or final-polynomial coefficient.",
 			Assumptions: []string{
 				"PublicInputs is included as a list (its length is fixed by the wrapper template, so appending/dropping must change the hash and be rejected)",
 			},
